@@ -1440,4 +1440,63 @@ example : (ucModel (numAlg ratToInt?) (envSI (K := Rat) unitTable) ⟨[2, 2], [1
     (valueUnit (numAlg ratToInt?) (envSI (K := Rat) unitTable)) = some ⟨[2, 2], [1, 2, 3, 4]⟩ := by decide +kernel
 example : (⟨[2, 0, 3], []⟩ : Arr Rat).wf := by simp [Arr.wf]
 
+
+/-! ## the default configuration; independence end to end -/
+
+section
+variable {K : Type} [Field K] [DecidableEq K] [CharZero K]
+/-- **the configuration `import atomman` leaves** (`atomman/__init__.py` calls `unitconvert.reset_units` with the keywords
+    regenerated into `UC.defaultKw`): the call goes through by name, all base scalings are non-zero and every unit it
+    names — angstrom, amu, eV, e on the current tree — is exactly 1 over the regenerated unit table. -/
+theorem default_units_are_one (r : K)
+    (hr : ∀ x, UC.radicand (envSI (K := K) unitTable) (UC.choiceOf UC.defaultKw) = some x → r * r = x)
+    (sc0 seedSc : Scales K) :
+    UC.resetPath ⟨UC.defaultSeedGiven, UC.defaultKw⟩ = .named (UC.choiceOf UC.defaultKw) ∧
+    (resetCall unitTable sc0 ⟨UC.defaultSeedGiven, UC.defaultKw⟩ seedSc r).Nonzero ∧
+    ∀ k n, (UC.choiceOf UC.defaultKw).get k = some n →
+      envOf unitTable (resetCall unitTable sc0 ⟨UC.defaultSeedGiven, UC.defaultKw⟩ seedSc r) n = some 1 := by
+  have h := reset_call_chosen_units_one (K := K) unitTable unit_table_ok ⟨UC.defaultSeedGiven, UC.defaultKw⟩ rfl
+    (by decide) (by decide) (by decide) (choiceOK_of_b (by decide +kernel)) r hr sc0 seedSc
+  exact ⟨h.1, h.2.2.1, h.2.2.2⟩
+end
+example : UC.choiceOf UC.defaultKw = ⟨some "angstrom".toList, some "amu".toList, none, some "eV".toList, some "e".toList⟩ := by
+  decide
+
+section
+variable {K : Type} [Field K] [DecidableEq K]
+
+/-- **working-unit independence, over the generated definitions**: `x [s1]` in `[s2]` of equal dimension, computed by
+    the generated parser and the generated `set_in_units` / `get_in_units`, is `x·v1/v2` under all non-zero scalings. -/
+theorem gen_same_dim_ratio_invariant (toInt? : K → Option Int) (tab : List UnitEntry)
+    (s1 s2 : List Char) (v1 v2 : K) (d : D5)
+    (h1 : UC.parse (trackAlg toInt?) (envTracked tab) s1 = some (v1, d))
+    (h2 : UC.parse (trackAlg toInt?) (envTracked tab) s2 = some (v2, d)) (hv2 : v2 ≠ 0)
+    (sc : Scales K) (hsc : sc.Nonzero) (x : List K) :
+    ∃ f1 f2, UC.parse (numAlg toInt?) (envOf tab sc) s1 = some f1
+      ∧ UC.parse (numAlg toInt?) (envOf tab sc) s2 = some f2 ∧ f2 ≠ 0
+      ∧ UC.getInUnits (UC.setInUnits x f1) f2 = x.map (fun t => t * v1 / v2) := by
+  rw [gen_parse_eq_model] at h1 h2 ⊢
+  rw [gen_setInUnits_eq_model, gen_getInUnits_eq_model]
+  exact same_dim_ratio_invariant toInt? tab s1 s2 v1 v2 d h1 h2 hv2 sc hsc x
+
+variable [CharZero K]
+
+/-- **working-unit independence, from the call**: after ANY accepted named call of `reset_units` (no seed, one to
+    four keywords, not over-determined, names of the right dimension — from any previous state) the conversion of `x`
+    from `s1` to `s2` of equal dimension is `x·v1/v2`: entry point, decision chain, formulas, parser and glue composed. -/
+theorem conversion_after_named_call (toInt? : K → Option Int) (tab : List UnitEntry) (htab : tableOK tab = true)
+    (a : ResetArgs) (hseed : a.seedGiven = false) (hne : a.kw ≠ []) (h4 : a.kw.length ≤ 4)
+    (hover : (UC.choiceOf a.kw).overDetermined = false) (hch : ChoiceOK tab (UC.choiceOf a.kw))
+    (r : K) (hr : ∀ x, UC.radicand (envSI (K := K) tab) (UC.choiceOf a.kw) = some x → r * r = x)
+    (sc0 seedSc : Scales K)
+    (s1 s2 : List Char) (v1 v2 : K) (d : D5)
+    (h1 : UC.parse (trackAlg toInt?) (envTracked tab) s1 = some (v1, d))
+    (h2 : UC.parse (trackAlg toInt?) (envTracked tab) s2 = some (v2, d)) (hv2 : v2 ≠ 0) (x : List K) :
+    ∃ f1 f2, UC.parse (numAlg toInt?) (envOf tab (resetCall tab sc0 a seedSc r)) s1 = some f1
+      ∧ UC.parse (numAlg toInt?) (envOf tab (resetCall tab sc0 a seedSc r)) s2 = some f2 ∧ f2 ≠ 0
+      ∧ UC.getInUnits (UC.setInUnits x f1) f2 = x.map (fun t => t * v1 / v2) :=
+  gen_same_dim_ratio_invariant toInt? tab s1 s2 v1 v2 d h1 h2 hv2 _
+    (reset_call_chosen_units_one tab htab a hseed hne h4 hover hch r hr sc0 seedSc).2.2.1 x
+end
+
 end Atomman.C09
